@@ -23,6 +23,7 @@ func init() {
 		},
 		Run: runC34,
 		Controls: []Control{
+			{Name: "imported-address-unmapped", File: "net/ip.go", Old: "func IPFromProtoIP(addr *api.IP) IP {\n\treturn IP{", New: "func (ip IP) unmapped() IP {\n\tif !ip.isLegacy && ip.higher == 0 && ip.lower>>32 == 0xffff {\n\t\treturn IPv4(uint32(ip.lower))\n\t}\n\treturn ip\n}\n\nfunc IPFromProtoIP(addr *api.IP) IP {\n\treturn iPFromProtoIP(addr).unmapped()\n}\n\nfunc iPFromProtoIP(addr *api.IP) IP {\n\treturn IP{", Expect: "import-returns-the-value-as-built"},
 			{Name: "conversion-skips-repeated-paths", File: "route/route.go", Old: "\t\ta.Paths[i] = r.paths[i].ToProto()\n", New: "\t\tif i > 0 && r.paths[i].Compare(r.paths[i-1]) {\n\t\t\tcontinue\n\t\t}\n\t\ta.Paths[i] = r.paths[i].ToProto()\n", Expect: "conversion-covers-every-element"},
 			{Name: "cluster-list-copied-into-empty-slice", File: "route/bgp_path.go", Old: "\t\ta.ClusterList = make([]uint32, len(*b.ClusterList))\n", New: "\t\ta.ClusterList = make([]uint32, 0, len(*b.ClusterList))\n", Expect: "copy-has-room"},
 			{Name: "segment-type-carried-across-segments", File: "protocols/bgp/types/as_path.go", Old: "\tfor i := range segments {\n\t\ts := ASPathSegment{\n\t\t\tType: ASSet,\n\t\t\tASNs: make([]uint32, len(segments[i].Asns)),\n\t\t}\n\n\t\tif segments[i].AsSequence {\n\t\t\ts.Type = ASSequence\n\t\t}\n", New: "\tsegType := uint8(ASSequence)\n\tfor i := range segments {\n\t\tif !segments[i].AsSequence {\n\t\t\tsegType = ASSet\n\t\t}\n\t\ts := ASPathSegment{\n\t\t\tType: segType,\n\t\t\tASNs: make([]uint32, len(segments[i].Asns)),\n\t\t}\n", Expect: "element-conversion-is-stateless"},
@@ -61,6 +62,7 @@ var c34Pairs = []protoPair{
 }
 
 func runC34(c *core.Ctx) {
+	conversionsArePure(c)
 	p := c.P
 	conversionLoops(c)
 	for _, pr := range c34Pairs {
